@@ -8,7 +8,10 @@ SPEC = {
     },
     "skip_model_prefix": ["free"],
     "rule": ("admissions and releases against the REAL code of every limit: SessionManager.CreateConnection (server-wide cap), "
-             "SessionManager.RegisterControlConnection -> ClientRegistry.Register (control cap, evict-oldest), TunnelRegistry.Register, "
+             "SessionManager.RegisterControlConnection -> ClientRegistry.Register (control cap, evict-oldest; `ctrlx`: the registry "
+             "itself with stream doubles whose Close() is a gate, so a registration can be stopped inside the Close() of its victim "
+             "while others run: caps 0,1,2,5 x occupancy cap-1, cap x 2-3 threads x 1-2 registrations, all interleavings), "
+             "TunnelRegistry.Register, "
              "BaseMappingHandler.handleConnection (per-mapping limit from the mapping config and from the user quota; real Tunnel objects "
              "over net.Pipe), conncode.Service.CreateConnectionCode over ConnectionCodeRepository over a gated memory storage (one step = "
              "one storage call) and ActivateConnectionCode with gated GetClientPortMappings/CreatePortMapping over the real port-mapping "
@@ -57,6 +60,13 @@ SPEC = {
         "release of a mapping slot is asynchronous (the tunnel winds down on its own goroutines): the harness waits up to 2 s for "
         "the occupancy to drop before it reads it; the occupancy of a mapping is its number of live tunnels (exported tunnel "
         "manager) - the private slot counter is not read, a leaked slot shows up as a later refusal the model does not predict",
+        "ctrlx: while a registration is stopped inside the registry's critical section no observer can read the registry (it "
+        "would wait for the lock); the harness then reports what it knows without the lock (connections whose Register returned "
+        "nil and whose stream no eviction has closed) - on the code as it is this coincides with the registry whenever both "
+        "can be read; the theorem C17_ctrlX is for programs of registrations only, one critical section (pinned: "
+        "lock_sections_ClientRegister); the two-section variant has the witness C17_ctrl_twoSections_witness",
+        "injectable calls that are NOT gated: the Close() of the stream of a connection refused late by CreateConnection (it runs "
+        "after the lock was released and after the refusal is decided), loggers",
         "expiry of codes / mappings, storage faults and the stale-connection sweep are outside this property's quantifier",
         "internal/stream/quota_enforcer.go enforces traffic quotas only (no count limits) and is not modelled",
         "free-running cases are decided by holdsFree (cap on the maximum and on the final occupancy, bookkeeping, no state change "
